@@ -356,6 +356,77 @@ func loopTerminates(c *core.Ctx, p *prover.F, l *prover.Loop) (string, bool) {
 		}
 		tried = append(tried, fmt.Sprintf("len(%s) is not provably decreasing on every back edge", ph.Name()))
 	}
+	// growing-slice loops: `for len(list) < n { list = append(list, x) }` - the header tests len(phi) against a
+	// loop-invariant bound, staying in the loop only while it is below, and every back edge carries an append of at
+	// least one element to that phi (ranking function n - len(list))
+	for _, ins := range l.Header.Instrs {
+		ph, ok := ins.(*ssa.Phi)
+		if !ok {
+			break
+		}
+		if _, isSlice := ph.Type().Underlying().(*types.Slice); !isSlice {
+			continue
+		}
+		ifi, isIf := l.Header.Instrs[len(l.Header.Instrs)-1].(*ssa.If)
+		if !isIf {
+			continue
+		}
+		bo, isB := ifi.Cond.(*ssa.BinOp)
+		if !isB {
+			continue
+		}
+		isLenPh := func(v ssa.Value) bool {
+			call, ok := v.(*ssa.Call)
+			if !ok {
+				return false
+			}
+			bi, isBi := call.Call.Value.(*ssa.Builtin)
+			return isBi && bi.Name() == "len" && call.Call.Args[0] == ssa.Value(ph)
+		}
+		stayTrue := l.Blocks[l.Header.Succs[0]] && !l.Blocks[l.Header.Succs[1]]
+		var bound ssa.Value
+		switch {
+		case bo.Op == token.LSS && isLenPh(bo.X) && stayTrue:
+			bound = bo.Y
+		case bo.Op == token.GTR && isLenPh(bo.Y) && stayTrue:
+			bound = bo.X
+		}
+		if bound == nil || !p.Invariant(l, p.LinOf(bound)) {
+			continue
+		}
+		grows := true
+		for i, pred := range l.Header.Preds {
+			if !isLatch[pred] {
+				continue
+			}
+			call, isCall := ph.Edges[i].(*ssa.Call)
+			if !isCall {
+				grows = false
+				break
+			}
+			bi, isBi := call.Call.Value.(*ssa.Builtin)
+			if !isBi || bi.Name() != "append" || call.Call.Args[0] != ssa.Value(ph) || len(call.Call.Args) != 2 {
+				grows = false
+				break
+			}
+			// at least one element: the variadic slice of a non-empty local array
+			okArg := false
+			if sl, isSl := call.Call.Args[1].(*ssa.Slice); isSl {
+				if al, isAl := sl.X.(*ssa.Alloc); isAl {
+					if arr, isArr := al.Type().Underlying().(*types.Pointer).Elem().Underlying().(*types.Array); isArr && arr.Len() >= 1 && sl.Low == nil && sl.High == nil {
+						okArg = true
+					}
+				}
+			}
+			if !okArg {
+				grows = false
+				break
+			}
+		}
+		if grows {
+			return fmt.Sprintf("ranking function (bound) - len(%s): the list grows by at least one element on every back edge and the loop runs only while it is shorter than a loop-invariant bound", ph.Name()), true
+		}
+	}
 	// reader-progress loops
 	if why, ok := readerProgress(c, p, l); ok {
 		return why, true
